@@ -7,12 +7,12 @@ Real code under contract:
 import re
 
 import common_rq
-from extract import ExtractionError
+from extract import ExtractionError, code_tokens, match_brace
 
 FLATTEN = "prqlc/prqlc/src/semantic/resolver/flatten.rs"
 
-LABELS = ["FS1", "FS2", "FS3", "FG1", "FG2", "FG3", "FG4", "FT1", "FT2", "FT3", "FW1", "FW2", "FW3"]
-FUNCTIONS = ["flatten_sort_arm", "flatten_group_arm", "flatten_call_slice", "flatten_window_arm"]
+LABELS = ["FS1", "FS2", "FS3", "FG1", "FG2", "FG3", "FG4", "FT1", "FT2", "FT3", "FW1", "FW2", "FW3", "FO1", "FO2"]
+FUNCTIONS = ["flatten_sort_arm", "flatten_group_arm", "flatten_call_slice", "flatten_window_arm", "flatten_other_arm"]
 RLIMIT = 80
 
 ASSUMED = [
@@ -23,7 +23,7 @@ ASSUMED = [
              "clone_from / clear, Option<Box<Expr>>::clone, WindowFrame::clone have their std meaning; `matches!(by.kind, Tuple(fields) if fields.is_empty())` is is_empty_tuple()",
      "keys": ["struct PlExpr", "struct ReplaceMap", "fn insert", "fn remove", "fn into_func_unwrap", "spec fn func_body", "fn parse_usize_unwrap", "fn fold_expr", "fn fold_column_sorts",
               "spec fn folded_sorts", "fn clone_sorts", "fn clone_from_sorts", "fn clear_sorts", "fn clone_partition", "fn clone_frame", "fn is_empty_tuple", "spec fn empty_tuple",
-              "struct ColumnSortPl", "struct WindowFramePl", "fn box_new", "fn make_frame", "spec fn frame_of", "fn default_frame", "spec fn default_frame_spec"]},
+              "struct ColumnSortPl", "struct WindowFramePl", "fn box_new", "fn make_frame", "spec fn frame_of", "fn default_frame", "spec fn default_frame_spec", "fn fold_transform_kind"]},
 ]
 TRUSTED = [
     "oracle (C03): a sort is in effect for every transform downstream of it until the next sort - the most recent one wins; a group (with a non-empty key) resets it: "
@@ -80,6 +80,7 @@ pub struct Env { pub sort_undone: bool, pub partition: Option<Box<Expr>>, pub so
 pub struct Flattener {
     pub sort: Vec<ColumnSort>, pub sort_undone: bool, pub partition: Option<Box<Expr>>, pub window: WindowFrame, pub replace_map: ReplaceMap,
     pub log: Ghost<Seq<(Expr, Env)>>,
+    pub kind_entry_sort: Ghost<Seq<ColumnSort>>,   // GHOST: the sort in effect when fold_transform_kind was entered last
 }
 pub open spec fn env_of(f: Flattener) -> Env { Env { sort_undone: f.sort_undone, partition: f.partition, sort: f.sort@, window: f.window } }
 pub uninterp spec fn folded_sorts(by: Seq<ColumnSort>) -> Seq<ColumnSort>;
@@ -87,10 +88,17 @@ impl Flattener {
     #[verifier::external_body]
     pub fn fold_expr(&mut self, e: Expr) -> (r: Result<Expr, Error>)
         ensures
-            final(self).log@ == old(self).log@.push((e, env_of(*old(self)))),
+            final(self).log@ == old(self).log@.push((e, env_of(*old(self)))), final(self).kind_entry_sort@ == old(self).kind_entry_sort@,
             final(self).sort_undone == old(self).sort_undone, final(self).partition == old(self).partition, final(self).window == old(self).window,
     { unimplemented!() }
 }
+// folding the payload of a transform (the joined / appended relation, expressions): the same flattener recurses into sub-pipelines, which may leave THEIR sort in `sort`
+#[verifier::external_body]
+pub fn fold_transform_kind(f: &mut Flattener, kind: TransformKind) -> (r: Result<TransformKind, Error>)
+    ensures
+        final(f).kind_entry_sort@ == old(f).sort@, final(f).log@ == old(f).log@,
+        final(f).sort_undone == old(f).sort_undone, final(f).partition == old(f).partition, final(f).window == old(f).window,
+{ unimplemented!() }
 #[verifier::external_body]
 pub fn fold_column_sorts(f: &mut Flattener, by: Vec<ColumnSort>) -> (r: Result<Vec<ColumnSort>, Error>)
     ensures *final(f) == *old(f), r is Ok ==> r->Ok_0@ == folded_sorts(by@),
@@ -167,6 +175,30 @@ def build(X):
                "{\n    " + wa.text + "\n    Ok(pipeline)\n}\n}\n")
     wa.rewrites.append({"rule": "slice", "what": "the TransformKind::Window arm of Flattener::fold_expr wrapped as a method; returns the folded inner pipeline"})
 
+    # ---- every other transform: `kind => ..` (join, append, derive, select, filter, aggregate, take, loop)
+    fo = X.fn(FLATTEN, "fold_expr", after="impl PlFold for Flattener")
+    mo = re.search(r"\n\s*kind => ", fo.text)
+    if not mo:
+        raise ExtractionError("fold_expr: the arm `kind => ..` for the transforms without special handling was not found")
+    rest = fo.text[mo.end():]
+    otoks = code_tokens(rest)
+    opener = rest[otoks[0][1]]
+    if opener not in "({":
+        raise ExtractionError("fold_expr: the arm `kind => ..` is neither a block nor a tuple expression")
+    oe = match_brace(rest, otoks, 0, opener, {"(": ")", "{": "}"}[opener])
+    fo.name = "flatten_other_arm"
+    fo.text = rest[:otoks[oe][2]]
+    fo.rewrites.append({"rule": "slice", "what": "the arm `kind => ..` of the match over the transform kinds in Flattener::fold_expr wrapped as a method returning (folded input, folded kind)"})
+    fo.rewrite_re("R5", r"\bself\.sort\.clone\(\)", "clone_sorts(&self.sort)", count=None, why="Vec::clone")
+    fo.text = ("impl Flattener {\npub fn flatten_other_arm(&mut self, t: TransformCallInput, kind: TransformKind) -> (r: Result<(Expr, TransformKind), Error>)\n"
+               "    ensures\n"
+               "        // what is upstream is folded first, with what was in effect ..\n"
+               "        r is Ok ==> final(self).log@ == old(self).log@.push((*t.input, env_of(*old(self)))), // @FO1\n"
+               "        // C03: .. and folding the payload of the transform - the joined / appended sub-pipeline - does not change the sort in effect: a join keeps the order of its\n"
+               "        // left input whatever order the right input has\n"
+               "        r is Ok ==> final(self).sort@ == final(self).kind_entry_sort@, // @FO2\n"
+               "{\n    Ok(" + fo.text + ")\n}\n}\n")
+
     # ---- tail: the transform call that is built
     # from the comment that introduces the statement(s) computing the call's sort to the end of the TransformCall literal (the comment is only an anchor: comments are not code)
     try:
@@ -188,7 +220,7 @@ def build(X):
                "        final(self).sort@ == old(self).sort@ && final(self).partition == old(self).partition && final(self).window == old(self).window, // @FT3\n"
                "{\n    " + ts.text + "\n}\n}\n")
     ts.rewrites.append({"rule": "slice", "what": "`let sort = ..;` and the ExprKind::TransformCall(..) expression that follows it, wrapped as a method"})
-    return PRELUDE + tk.text + "\n" + SHIM2 + sa.text + "\n" + ga.text + "\n" + wa.text + "\n" + ts.text + "\n} // verus!\nfn main() {}\n"
+    return PRELUDE + tk.text + "\n" + SHIM2 + sa.text + "\n" + ga.text + "\n" + wa.text + "\n" + fo.text + "\n" + ts.text + "\n} // verus!\nfn main() {}\n"
 
 
 # ----------------------------------------------------------------------------- replay on the real compiler
@@ -202,6 +234,8 @@ CASES = [
     ("from a\nsort {-x}\njoin b (==id)\ntake 2\nselect {a.id}\n", [(r[0],) for r in _BYX[:2]], True),
     ("from a\nsort {-x}\njoin b (==id)\nderive {r = row_number this}\nselect {a.id, r}\nsort a.id\n", sorted((r[0], i + 1) for i, r in enumerate(_BYX)), True),
     ("from a\nselect {id, x, g}\nsort {-x}\njoin b (==id)\ntake 2\ngroup a.g (aggregate {n = count this, t = sum a.x})\nsort g\n", [('q', 1, 40), ('r', 1, 50)], True),
+    # the order of the RIGHT input of a join does not replace the order in effect
+    ("from a\nselect {id, x, g}\nsort {-x}\njoin (from b | sort v) (==id)\ntake 2\ngroup a.g (aggregate {n = count this, t = sum a.x})\nsort g\n", [('q', 1, 40), ('r', 1, 50)], True),
     ("from a\nsort {-x}\ntake 3\nselect {id}\n", [(r[0],) for r in _BYX[:3]], True),
     ("from a\nsort x\nderive {r = row_number this}\nfilter r <= 2\nselect {id}\nsort id\n", [(1,), (6,)], True),
 ]
